@@ -1,6 +1,6 @@
 """
 Locate the repository under test, make the offline third-party helpers
-(icontract, mpmath) importable and import ``verde`` from the repository's
+(mpmath) importable and import ``verde`` from the repository's
 *working tree* (never from a stale copy).
 """
 import os
@@ -10,7 +10,7 @@ import sys
 VERIF = os.path.dirname(os.path.dirname(os.path.abspath(__file__)))
 DEPS = os.path.join(VERIF, ".deps")
 WHEELS = "/opt/veriftools/wheels"
-PACKAGES = ["icontract", "mpmath"]
+PACKAGES = ["mpmath"]  # icontract is supported by Tap.contract but no shipped monitor needs it
 
 
 def repo_root():
@@ -18,7 +18,7 @@ def repo_root():
 
 
 def ensure_deps():
-    """Install icontract/mpmath offline into /verif/.deps when absent."""
+    """Install mpmath offline into /verif/.deps when absent."""
     marker = os.path.join(DEPS, ".installed")
     if not os.path.exists(marker):
         os.makedirs(DEPS, exist_ok=True)
